@@ -379,6 +379,29 @@ func sqlBoundaryInputs() []string {
 				add("\xe9t\xe9' " + f)
 			}
 		}
+		// (m) constructs at offsets and behind token counts around the 8- and 16-bit boundaries: a position, a
+		// length or a counter kept in a narrow integer type, or masked, shows only there
+		ovec := []string{" union select password from users", " or 1=1 -- ", "' or 'a'='a", "; drop table t", " and sleep(5) #", "\" or \"\"=\"", " q'(a)' or 1=1", " $t$a$t$ union select 1", " /*! or 1=1 */", " 1e1 or 0x1 = 1"}
+		for _, n := range []int{250, 251, 252, 253, 254, 255, 256, 257, 258, 259, 260, 511, 512, 513, 65534, 65535, 65536, 65537} {
+			for vi, v := range ovec {
+				if n > 1000 && vi > 3 {
+					break
+				}
+				add("1" + strings.Repeat(" ", n-1) + v)
+				add("1/*" + strings.Repeat("a", n-5) + "*/" + v)
+				add("'" + strings.Repeat("a", n-2) + "'" + v)
+				add(strings.Repeat("a", n-1) + " " + v)
+				add("1 --" + strings.Repeat("a", n-5) + "\n" + v)
+			}
+		}
+		for _, n := range []int{6, 7, 8, 9, 15, 16, 17, 31, 32, 33, 63, 64, 65, 127, 128, 129, 255, 256, 257, 1023, 1024, 1025} {
+			for _, v := range ovec[:6] {
+				for _, unit := range []string{"1,", "a ", "(", "1+", "'a' ", "@a,", "a.b ", "1 or "} {
+					add(strings.Repeat(unit, n) + v)
+					add(strings.Repeat(unit, n) + "1" + v)
+				}
+			}
+		}
 		// (f) mirrored delimiters outside the documented sets: dollar tags with digits, underscores,
 		// non-ASCII or mixed-case letters and q-strings with arbitrary (also multi-byte) delimiters,
 		// closed by an identical copy, a case variant or a different tag
